@@ -2,7 +2,7 @@
     Only statements; models and proofs are in theories/Gmpy.v.  [res] is the outcome type of the
     model: [Ok v] or the exception raised ([EValue] ValueError, [EZeroDiv] ZeroDivisionError);
     [EFuel] would be the model running out of loop fuel (excluded by the theorems). *)
-Require Import MPyC.Gmpy MPyC.GmpyGcdext MPyC.GmpyRatrec MPyC.GmpyFpp.
+Require Import MPyC.Gmpy MPyC.GmpyGcdext MPyC.GmpyRatrec MPyC.GmpyFpp MPyC.GmpyMR.
 From Coq Require Import ZArith Znumtheory List Bool.
 Import ListNotations.
 Local Open Scope nat_scope.
@@ -119,6 +119,23 @@ Print Assumptions C25_is_prime_complete.
 Theorem C25_is_prime_false_composite : forall n tp x, fst (is_prime_n n tp x) = false -> ~ prime x.
 Proof. exact is_prime_false_composite. Qed.
 Print Assumptions C25_is_prime_false_composite.
+
+(** the squaring chain of a round must reach x-1: once it squares to 1 the round is lost ... *)
+Theorem C25_mr_sqrt_of_one_rejected : forall x k b, 2 < x -> (b * b) mod x = 1 -> mr_inner k b x = false.
+Proof. exact mr_sqrt_of_one_rejected. Qed.
+Print Assumptions C25_mr_sqrt_of_one_rejected.
+
+(** ... rightly so: a square root of 1 other than 1 and x-1 proves x composite *)
+Theorem C25_mr_nontrivial_sqrt_witness : forall x b, 0 <= b < x -> b <> 1 -> b <> x - 1 ->
+  (b * b) mod x = 1 -> ~ prime x.
+Proof. exact mr_nontrivial_sqrt_witness. Qed.
+Print Assumptions C25_mr_nontrivial_sqrt_witness.
+
+(** a base on which one round fails is a compositeness witness *)
+Theorem C25_mr_round_false_witness : forall x sp r s a, x - 1 = Zpos sp -> twos sp = (r, s) ->
+  2 <= a <= x - 2 -> mr_round x r s a = false -> ~ prime x.
+Proof. exact mr_round_false_witness. Qed.
+Print Assumptions C25_mr_round_false_witness.
 
 (** whatever passes the small-prime trial division below 1024 is prime (so Miller-Rabin only matters above) *)
 Theorem C25_trial_survivor_prime_bounded : forall x, 53 < x < 1024 -> Z.odd x = true ->
@@ -248,3 +265,10 @@ Proof. vm_compute. repeat split; reflexivity. Qed.
 Example C25_nonvacuous_ratrec_complete : is_ratrec 34 101 7 7 1 3 /\ ratrec_core 34 101 7 7 = Ok (1, 3) /\
   ratrec_core 10 101 2 2 = EValue.
 Proof. split; [exact is_ratrec_ex | split; [exact ratrec_core_ex | exact ratrec_core_ex_none]]. Qed.
+(** the Carmichael number 3828001 = 101*151*251 survives the trial division and every coprime base is a Fermat
+    liar; base 2: 2^119625 = 2879722 -> 1174932 -> 1, a nontrivial square root of 1, and the model rejects *)
+Example C25_nonvacuous_carmichael : trial small_primes 3828001 = None /\ twos 3828000%positive = (5, 119625) /\
+  powZ 2 119625 3828001 = 2879722 /\ (2879722 * 2879722) mod 3828001 = 1174932 /\
+  (1174932 * 1174932) mod 3828001 = 1 /\ mr_inner 4 2879722 3828001 = false /\
+  mr_round 3828001 5 119625 2 = false /\ fst (is_prime (of_list []) 3828001) = false.
+Proof. vm_compute. repeat split; reflexivity. Qed.
